@@ -617,8 +617,14 @@ func builtinRandomInt(i *Interpreter, args []Expr, env *Environment) (interface{
 	if minVal > maxVal {
 		return nil, fmt.Errorf("randomInt() requires min <= max, got min=%d, max=%d", minVal, maxVal)
 	}
+	// The number of values in [min, max] overflows int64 for a range as wide as
+	// randomInt(0, 9223372036854775807); Int63n panics on a non-positive bound.
+	span := maxVal - minVal + 1
+	if span <= 0 {
+		return nil, fmt.Errorf("randomInt() range is too large: min=%d, max=%d", minVal, maxVal)
+	}
 	// #nosec G404 -- non-cryptographic PRNG intentional for general-purpose scripting use
-	return minVal + rand.Int63n(maxVal-minVal+1), nil
+	return minVal + rand.Int63n(span), nil
 }
 
 func builtinGenerateId(_ *Interpreter, args []Expr, _ *Environment) (interface{}, error) {
